@@ -31,6 +31,99 @@ func decideExists(x *absint.Exec, s *absint.State, atom string, outs []string) {
 	if strings.HasPrefix(atom, "b(§exists#") && len(outs) == 1 {
 		s.SetData("exists", outs[0])
 	}
+	// the position answered by a helper that says "not found" with a negative number: pos == -1, pos < 0, pos >= 0
+	if strings.HasPrefix(atom, "ord(") && strings.Contains(atom, "§pos#") && len(outs) > 0 {
+		parts := splitTop(strings.TrimSuffix(strings.TrimPrefix(atom, "ord("), ")"))
+		if len(parts) != 2 {
+			return
+		}
+		o := strings.Join(outs, "")
+		k, posFirst := parts[1], true
+		if !strings.HasPrefix(parts[0], "§pos#") {
+			k, posFirst = parts[0], false
+			// orient the outcomes as "pos versus constant"
+			o = strings.NewReplacer("<", ">", ">", "<").Replace(o)
+		}
+		_ = posFirst
+		switch k {
+		case "c:-1":
+			// the helper answers a position or -1, nothing else: "not -1" is "found"
+			if o == "=" {
+				s.SetData("exists", "F")
+			} else if !strings.Contains(o, "=") {
+				s.SetData("exists", "T")
+			}
+		case "c:0":
+			if o == "<" {
+				s.SetData("exists", "F")
+			} else if !strings.Contains(o, "<") {
+				s.SetData("exists", "T")
+			}
+		}
+	}
+}
+
+var positionHelperMemo = map[*ssa.Function]bool{}
+
+// isPositionHelper: fn looks a name up in a list of elements and answers its position, or a negative constant when
+// the name is not there: func (el Elements) position(name string) int.
+func isPositionHelper(c *core.Ctx, fn *ssa.Function) bool {
+	if v, ok := positionHelperMemo[fn]; ok {
+		return v
+	}
+	positionHelperMemo[fn] = false
+	if fn == nil || fn.Signature.Results().Len() != 1 || len(fn.Params) != 2 || len(fn.Blocks) == 0 {
+		return false
+	}
+	if b, ok := fn.Signature.Results().At(0).Type().Underlying().(*types.Basic); !ok || b.Info()&types.IsInteger == 0 {
+		return false
+	}
+	lt := fn.Params[0].Type()
+	if p, ok := lt.Underlying().(*types.Pointer); ok {
+		lt = p.Elem()
+	}
+	if !strings.HasSuffix(lt.String(), ".Elements") {
+		return false
+	}
+	if b, ok := fn.Params[1].Type().Underlying().(*types.Basic); !ok || b.Info()&types.IsString == 0 {
+		return false
+	}
+	x := newExec(c)
+	terms := x.Run(x.NewState(fn, nil, nil))
+	if len(x.Problems) > 0 || x.Exhausted {
+		return false
+	}
+	nameKey := absint.Sym{Name: fn.Params[1].Name()}.Key()
+	found, missing := 0, 0
+	for _, tm := range terms {
+		if tm.Kind != "return" || len(tm.Ret) != 1 {
+			return false
+		}
+		if cst, ok := tm.Ret[0].(absint.Const); ok && cst.V != nil && cst.V.Kind() == constant.Int && constant.Sign(cst.V) < 0 {
+			missing++
+			continue
+		}
+		// a position: on this path the name of the element at that position was found equal to the name asked for
+		ok := false
+		for k := range tm.State.PC {
+			if !strings.HasPrefix(k, "ord(") || !strings.Contains(k, nameKey) {
+				continue
+			}
+			if o := x.Possible(tm.State, k); len(o) == 1 && o[0] == "=" {
+				for _, m := range loadSymRe.FindAllStringSubmatch(k, -1) {
+					if strings.HasSuffix(x.LocOf[m[1]], "["+tm.Ret[0].Key()+"]·Name") {
+						ok = true
+					}
+				}
+			}
+		}
+		if !ok {
+			return false
+		}
+		found++
+	}
+	positionHelperMemo[fn] = found > 0 && missing > 0
+	return positionHelperMemo[fn]
 }
 
 // sameElem: a and b are loads of fields fa and fb of the same slice element.
@@ -81,6 +174,28 @@ func ruleMergeByName(c *core.Ctx, rule string, fn *ssa.Function, withMult bool) 
 			}
 		}
 		if !loops {
+			// … directly, or through a helper of the package that does nothing else with the list
+			// (elements.merged() = NewElements() + SumMerge(elements, 1))
+			for _, b := range fn.Blocks {
+				for _, in := range b.Instrs {
+					ci, ok := in.(ssa.CallInstruction)
+					if !ok {
+						continue
+					}
+					h := core.Callee(ci.Common())
+					if h == nil || h == sm || h == fn || !c.P.InScope(h) || core.FnPkgPath(h) != core.FnPkgPath(fn) || len(h.Params) != 1 || len(ci.Common().Args) != 1 {
+						continue
+					}
+					if _, fromParam := ci.Common().Args[0].(*ssa.Parameter); !fromParam || !strings.HasSuffix(h.Params[0].Type().String(), ".Elements") {
+						continue
+					}
+					if delegatesToSumMerge(h, sm) {
+						c.Discharge(rule, fname, "exists∈{T,F}", pos, "hands its list to "+h.Name()+", which delegates to Elements.SumMerge(list, 1); SumMerge is checked in its place")
+						ruleMergeByName(c, rule, sm, true)
+						return
+					}
+				}
+			}
 			for _, b := range fn.Blocks {
 				for _, in := range b.Instrs {
 					ci, ok := in.(ssa.CallInstruction)
@@ -294,6 +409,11 @@ func ruleMergeByName(c *core.Ctx, rule string, fn *ssa.Function, withMult bool) 
 		switch {
 		case isMethod(callee, core.LibPath, "Elements", "Index") && len(args) == 2:
 			return indexStub(x, s, site, args), true
+		case callee != nil && c.P.InScope(callee) && callee != fn && isPositionHelper(c, callee) && len(args) == 2:
+			// pos := el.position(name): the Index idiom with a negative position for "not there"
+			s.SetData("lookup", args[1].Key())
+			s.SetData("exists", "")
+			return x.Fresh(s, "pos"), true
 		case callee != nil && c.P.InScope(callee) && isIndexBuilder(c, callee):
 			// positions(list): the map a linear scan would give (checked on its own), kept up to date from here on
 			return x.Fresh(s, "map:built"), true
@@ -368,7 +488,7 @@ func ruleMergeByName(c *core.Ctx, rule string, fn *ssa.Function, withMult bool) 
 			report("two effects for one looked-up element (%s)", c.P.Pos(in.Pos()))
 		}
 		s.SetData("eff", "1")
-		okSlot := strings.Contains(p.Loc, "[§ndx#")
+		okSlot := strings.Contains(p.Loc, "[§ndx#") || strings.Contains(p.Loc, "[§pos#")
 		if pm := s.Data["posmap"]; pm != "" && strings.Contains(p.Loc, "["+absint.NewTerm("lookup", absint.Sym{Name: strings.TrimPrefix(pm, "§")}, absint.Sym{Name: strings.TrimPrefix(s.Data["lookup"], "§")}).Key()+"]") {
 			okSlot = true
 		}
@@ -668,4 +788,27 @@ func isIndexBuilder(c *core.Ctx, fn *ssa.Function) bool {
 	}
 	indexBuilderMemo[fn] = good > 0 && bad == 0
 	return indexBuilderMemo[fn]
+}
+
+// delegatesToSumMerge: h has no loop and calls SumMerge(<its list parameter>, 1).
+func delegatesToSumMerge(h, sm *ssa.Function) bool {
+	for _, b := range h.Blocks {
+		if isLoopHead(b) {
+			return false
+		}
+	}
+	for _, b := range h.Blocks {
+		for _, in := range b.Instrs {
+			ci, ok := in.(ssa.CallInstruction)
+			if !ok || core.Callee(ci.Common()) != sm || len(ci.Common().Args) != 3 {
+				continue
+			}
+			k, isC := ci.Common().Args[2].(*ssa.Const)
+			_, fromParam := ci.Common().Args[1].(*ssa.Parameter)
+			if isC && k.Value != nil && constant.Compare(k.Value, token.EQL, constant.MakeInt64(1)) && fromParam {
+				return true
+			}
+		}
+	}
+	return false
 }
